@@ -48,6 +48,35 @@ def short(q):
 
 
 _VALUES = [False]
+_GETTERS = [None]
+
+
+def getter_map(fns):
+    """pat -> returned expression of the parameterless member functions whose whole body is `return <expr over fields and constants>`"""
+    m = {}
+    for f in fns.values():
+        if f.get("params") or f.get("body") is None or not f.get("rect"):
+            continue
+        st = stmts_of(f["body"])
+        if len(st) != 1 or st[0].get("k") != "Return" or st[0].get("e") is None:
+            continue
+        bad = [False]
+        walk(st[0]["e"], lambda n: bad.__setitem__(0, True) if n.get("k") in ("Call", "OpCall", "Assign", "Construct", "Lambda", "New") or (n.get("k") == "Un" and n.get("op") in ("++", "--")) or (n.get("k") == "Ref" and n.get("dk") in ("local", "param")) else None)
+        if not bad[0]:
+            m[f["pat"]] = st[0]["e"]
+    return m
+
+
+class with_getters:
+    def __init__(self, fns):
+        self.m = getter_map(fns)
+
+    def __enter__(self):
+        self.old = _GETTERS[0]
+        _GETTERS[0] = self.m
+
+    def __exit__(self, *a):
+        _GETTERS[0] = self.old
 
 
 def txt(e, inl=None, depth=0):
@@ -61,6 +90,8 @@ def txt(e, inl=None, depth=0):
             return txt(inl[e["d"]], inl, depth + 1)
         if _VALUES[0] and "v" in e and e.get("t") != "bool" and (e.get("dk") in ("global", "enum") or e.get("isstatic")):
             return str(e["v"])
+        if _VALUES[0] and "fv" in e and e.get("dk") == "global":
+            return repr(int(e["fv"]) if isinstance(e["fv"], float) and e["fv"] == int(e["fv"]) and abs(e["fv"]) < 1e15 else e["fv"])      # a named floating constant reads as its value
         return e["n"]
     if "v" in e and k not in ("Call", "Assign", "OpCall") and e.get("t") != "bool":
         return str(e["v"])
@@ -84,6 +115,8 @@ def txt(e, inl=None, depth=0):
         return (inner + e["op"]) if e.get("post") else (e["op"] + inner)
     if k == "Call":
         o = ""
+        if _GETTERS[0] and not e.get("args") and e.get("cpat") in _GETTERS[0] and (e.get("obj") is None or strip(e["obj"]).get("k") == "This") and depth < 5:
+            return txt(_GETTERS[0][e["cpat"]], None, depth + 1)      # a trivial accessor of the own object reads as what it returns
         if e.get("obj") is not None:
             o = txt(e["obj"], inl, depth)
             o = "" if o == "this" else o + "."
@@ -824,6 +857,60 @@ def inlined_body(fn, by_pat, depth=2, _stack=(), keep=(), mark=None):
             return dict({k: v for k, v in s.items() if k != "s"}, s=out)
         return {k: rec(v, d) for k, v in s.items()}
     return rec(fn.get("body"), depth)
+
+
+def inline_value_decls(fn, by_pat, depth=2):
+    """`T x = helper(args);` where helper is a member of the same class called on this object whose body assembles a local
+    step by step and returns it last (`T r = a; if (c) r |= b; ...; return r;`): the helper's statements take the place of the
+    declaration and x is declared with the returned expression - the function reads as it did before the block was extracted"""
+    import copy
+    if fn.get("body") is None or depth <= 0:
+        return fn
+
+    def subst(node, m):
+        if isinstance(node, list):
+            return [subst(x, m) for x in node]
+        if not isinstance(node, dict):
+            return node
+        if node.get("k") == "Ref" and node.get("d") in m:
+            return copy.deepcopy(m[node["d"]])
+        return {k: subst(v, m) for k, v in node.items()}
+    changed = [False]
+
+    def rec(s):
+        if isinstance(s, list):
+            return [rec(x) for x in s]
+        if not isinstance(s, dict):
+            return s
+        if s.get("k") == "Block":
+            out = []
+            for x in s.get("s", []):
+                done = False
+                if isinstance(x, dict) and x.get("k") == "Decl" and len(x.get("vars", [])) == 1 and x["vars"][0].get("init") is not None:
+                    c = strip_all(x["vars"][0]["init"])
+                    cal = by_pat.get(c.get("cpat")) if c.get("k") == "Call" else None
+                    if cal is not None and cal is not fn and cal.get("pat") != fn.get("pat") and cal.get("body") is not None and cal.get("rect") == fn.get("rect") and fn.get("rect") \
+                            and (c.get("obj") is None or strip(c["obj"]).get("k") == "This") and len(cal.get("params", [])) == len(c.get("args", [])):
+                        st = stmts_of(cal["body"])
+                        rets = []
+                        walk(cal["body"], lambda n: rets.append(n) if n.get("k") == "Return" else None)
+                        if len(st) >= 2 and len(rets) == 1 and st[-1].get("k") == "Return" and st[-1].get("e") is not None and any(y.get("k") not in ("Decl", "Return") for y in st):
+                            m = {p_["d"]: a for p_, a in zip(cal["params"], c["args"])}
+                            body = _fresh_locals(subst({"k": "Block", "s": st}, m))
+                            bs = body["s"]
+                            v2 = dict(x["vars"][0], init=bs[-1]["e"])
+                            out.extend(rec(bs[:-1]))
+                            out.append(dict(x, vars=[v2]))
+                            changed[0] = True
+                            done = True
+                if not done:
+                    out.append(rec(x))
+            return dict({k: v for k, v in s.items() if k != "s"}, s=out)
+        return {k: rec(v) for k, v in s.items()}
+    body = rec(fn["body"])
+    if not changed[0]:
+        return fn
+    return inline_value_decls(dict(fn, body=body), by_pat, depth - 1)
 
 
 # ---------------------------------------------------------------------------------------------------------------------------
